@@ -48,7 +48,24 @@ func winMunmapWithHolders(s *simrt.Sim, t *simrt.Task) bool {
 		if !mid || u.Label == "start" || u.Blocked() || strings.HasPrefix(u.Label, "sys:munmap") {
 			continue
 		}
+		// A thread whose next step is one of file.register's (or of the walk over
+		// the list of counters) has not touched the counter's state yet: it holds
+		// neither a reader count nor the lock nor a pointer. (Counting it as a
+		// holder kept the closing of a mapping away from half-registered
+		// counters and so hid finding 12.18 from C03 and C04.)
+		if atListStep(u.Label) {
+			continue
+		}
 		return true
+	}
+	return false
+}
+
+func atListStep(label string) bool {
+	for _, x := range []string{"c.linked.Load", "c.next.Load", "c.next.CompareAndSwap", "c.next.Store", "f.counters.Load", "f.counters.CompareAndSwap"} {
+		if strings.Contains(label, "atomic "+x+" @file.go") {
+			return true
+		}
 	}
 	return false
 }
